@@ -104,8 +104,16 @@ Step ==
                            \cup { <<"WorkNeverLost", {"Complete"}, l>> : h \in LostSet(e.obs, sched', dset') })
               /\ fired' = Bump({"CompletesWithHonestPeer"} \cup (IF Len(fl) > 0 THEN {"InOrderGapFree", "EachOnce", "BodyMatchesHeader"} ELSE {}))
               /\ UNCHANGED cfg
+        [] e.ev = "LoopEnd" ->
+              \* the real fetchBodies/fetchParts loop returned: with an honest peer connected it must not have given up, and
+              \* the consumer must have received the whole range
+              /\ viol' = AddViol(IF e.args.honest /\ (e.res.err # "nil" \/ nd # cfg.n \/ ~((1..cfg.n) \subseteq dset))
+                                 THEN { <<"CompletesWithHonestPeer", {"loop", e.res.err}, l>> } ELSE {})
+              /\ fired' = Bump(IF e.args.honest THEN {"CompletesWithHonestPeer"} ELSE {})
+              /\ UNCHANGED <<cfg, sched, nd, dset>>
         [] OTHER ->
-              LET r   == IF e.ev = "Results" THEN e.res.r ELSE <<>>
+              LET r   == IF e.ev \in {"Results", "LoopResults"} THEN e.res.r ELSE <<>>
+                  hasObs == "obs" \in DOMAIN e
                   sc  == IF e.ev = "Schedule" THEN sched \cup { e.res.acc[i] : i \in DOMAIN e.res.acc } ELSE sched
                   ds  == dset \cup { r[i][5] : i \in DOMAIN r } IN
               /\ sched' = sc /\ nd' = nd + Len(r) /\ dset' = ds
@@ -115,11 +123,11 @@ Step ==
                    \cup { <<"BodyMatchesHeader", {d}, l>> : d \in BodyFails(r) }
                    \* a chunk offered in chain order must be taken up entirely, otherwise the range cannot complete
                    \cup (IF e.ev = "Schedule" /\ e.args.v = "ok" /\ e.res.ins # Len(e.args.chunk) THEN { <<"WorkNeverLost", {"Schedule", "refused"}, l>> } ELSE {})
-                   \cup { <<"WorkNeverLost", EvDisc(e), l>> : h \in LostSet(e.obs, sc, ds) }
-                   \cup { <<"NoDoubleAssign", EvDisc(e), l>> : h \in DoubleSet(e.obs) })
+                   \cup (IF hasObs THEN { <<"WorkNeverLost", EvDisc(e), l>> : h \in LostSet(e.obs, sc, ds) } ELSE {})
+                   \cup (IF hasObs THEN { <<"NoDoubleAssign", EvDisc(e), l>> : h \in DoubleSet(e.obs) } ELSE {}))
               /\ fired' = Bump((IF Len(r) > 0 THEN {"InOrderGapFree", "EachOnce", "BodyMatchesHeader"} ELSE {})
-                               \cup (IF sc \ ds # {} THEN {"WorkNeverLost"} ELSE {})
-                               \cup (IF \E p \in DOMAIN e.obs.pd : Len(e.obs.pd[p]) > 0 THEN {"NoDoubleAssign"} ELSE {}))
+                               \cup (IF hasObs /\ sc \ ds # {} THEN {"WorkNeverLost"} ELSE {})
+                               \cup (IF hasObs /\ \E p \in DOMAIN e.obs.pd : Len(e.obs.pd[p]) > 0 THEN {"NoDoubleAssign"} ELSE {}))
               /\ UNCHANGED cfg
 
 Spec == Init /\ [][Step]_vars
